@@ -54,9 +54,16 @@ func emit(w *bufio.Writer, e ev) {
 
 func obs(e ev) { curObs = append(curObs, e); emit(obsW, e) }
 
+// payload: the caller's buffer for message m. Lengths vary (below and above the pooled 500 bytes); every fourth message
+// lives in a buffer whose CAPACITY is far larger than its length and than the 64 KiB recycling limit (a reused scratch
+// buffer): the diode must deliver the bytes as they were at Write whatever the buffer looks like.
 func payload(m int) []byte {
 	n := 8 + (m%3)*300
-	b := make([]byte, 0, n+16)
+	c := n + 16
+	if m%4 == 1 {
+		c = 70 * 1024
+	}
+	b := make([]byte, 0, c)
 	b = append(b, fmt.Sprintf("m%d:", m)...)
 	for i := 0; len(b) < n; i++ {
 		b = append(b, byte('a'+(m+i)%26))
